@@ -36,9 +36,10 @@ func cfgInt(x *vs.X, k string, def int) int {
 
 // catch outcomes
 const (
-	catchNow = iota
+	catchNow  = iota
 	catchSlow // succeeds after 3 s (a rendezvous in flight)
 	catchErr
+	catchSlowErr // fails after 3 s (a rendezvous in flight that comes to nothing)
 	nCatch
 )
 
@@ -58,12 +59,15 @@ type c15World struct {
 	recs    []*peerRec
 	seq     int64 // event clock (hooked atomic: orders harness events for the reduction)
 
-	endReturned  int64 // event clock when the first End returned
+	endReturned   int64 // event clock when the first End returned
 	catchAfterEnd string
-	overCap      string
-	popBad       string
-	popped       []int
-	popNilAfterEnd bool
+	// a Catch returned after the collector had been told to stop: no further Catch may begin
+	endedMelted       bool
+	catchAfterMelted  string
+	overCap           string
+	popBad            string
+	popped            []int
+	popNilAfterEnd    bool
 	popAfterEndNonNil string
 }
 
@@ -82,12 +86,25 @@ func (t c15Tongue) Catch() (*WebRTCPeer, error) {
 	}
 	i := w.catches
 	w.catches++
+	// one attempt may be in flight when the collector is told to stop (or begin in the window between
+	// Collect's check and the stop); once an attempt has ENDED after the stop, no other may begin
+	if w.peers != nil && verifMelted(w.peers) && w.endedMelted && w.catchAfterMelted == "" {
+		w.catchAfterMelted = fmt.Sprintf("Catch #%d began although an earlier rendezvous attempt had already ended after the collector was told to stop", i)
+	}
+	defer func() {
+		if w.peers != nil && verifMelted(w.peers) {
+			w.endedMelted = true
+		}
+	}()
 	if i >= len(w.script) {
 		i = len(w.script) - 1
 	}
 	switch w.script[i] {
 	case catchErr:
 		return nil, errors.New("broker unreachable")
+	case catchSlowErr:
+		vs.Sleep(3 * time.Second)
+		return nil, errors.New("timed out waiting for an answer")
 	case catchSlow:
 		vs.Sleep(3 * time.Second)
 	}
@@ -237,6 +254,9 @@ func init() {
 			}
 			if w.popBad != "" {
 				x.Fail("pop-live", "pop-returned-closed-peer", "%s", w.popBad)
+			}
+			if w.catchAfterMelted != "" {
+				x.Fail("stops-collecting", "second-rendezvous-after-stop", "%s", w.catchAfterMelted)
 			}
 			if w.catchAfterEnd != "" {
 				x.Fail("stops-collecting", "catch-after-end", "%s", w.catchAfterEnd)
